@@ -7,12 +7,14 @@ package xbuf
 // body itself (loops unrolled) where it is a literal.
 
 //@ func (*B).C
+//@   params b d
 //@   property C15
 //@   ensures ret1 == b && len(*b) == old(len(*b))+1 && (*b)[old(len(*b))] == d
 //@   ensures all(j, int, 0 <= j && j < old(len(*b)) ==> (*b)[j] == old((*b)[j]))
 //@   assigns *b
 
 //@ func (*B).X02
+//@   params b d
 //@   property C15
 //@   ensures ret1 == b && len(*b) == old(len(*b))+2
 //@   ensures (*b)[old(len(*b))] == hexdigits[d>>4] && (*b)[old(len(*b))+1] == hexdigits[d&15]
@@ -20,6 +22,7 @@ package xbuf
 //@   assigns *b
 
 //@ func (*B).X04
+//@   params b d
 //@   property C15
 //@   ensures ret1 == b && len(*b) == old(len(*b))+4
 //@   ensures (*b)[old(len(*b))] == hexdigits[d>>12] && (*b)[old(len(*b))+1] == hexdigits[d>>8&15] && (*b)[old(len(*b))+2] == hexdigits[d>>4&15] && (*b)[old(len(*b))+3] == hexdigits[d&15]
@@ -27,6 +30,7 @@ package xbuf
 //@   assigns *b
 
 //@ func (*B).X06
+//@   params b d
 //@   property C15
 //@   ensures ret1 == b && len(*b) == old(len(*b))+6
 //@   ensures (*b)[old(len(*b))] == hexdigits[d>>20&15] && (*b)[old(len(*b))+1] == hexdigits[d>>16&15] && (*b)[old(len(*b))+2] == hexdigits[d>>12&15]
@@ -35,6 +39,7 @@ package xbuf
 //@   assigns *b
 
 //@ func (*B).S
+//@   params b s
 //@   property C15
 //@   modular symbolic
 //@   ensures ret1 == b && len(*b) == old(len(*b))+len(s)
@@ -48,6 +53,7 @@ package xbuf
 //@   loop 1 modifies *b
 
 //@ func (*B).Sb
+//@   params b sb
 //@   property C15
 //@   modular symbolic
 //@   ensures ret1 == b && len(*b) == old(len(*b))+len(sb)
@@ -60,6 +66,7 @@ package xbuf
 //@   loop 1 modifies *b
 
 //@ func (*B).Sn
+//@   params b s n
 //@   property C15
 //@   modular symbolic
 //@   ensures ret1 == b && len(*b) == old(len(*b))+ite(n > len(s), n, len(s))
